@@ -1569,6 +1569,14 @@ FROM (
             if source_lower in ("boolean", "integer"):
                 # an Integer stays in BIGINT: the DOUBLE detour below is exact only up to 2**53
                 return f"CAST({expr} AS {duckdb_type})"
+            if source_lower == "string":
+                # "Must be a valid integer string (rejects "3.5")": only integral numerals convert
+                num = f"CAST({expr} AS DOUBLE)"
+                return (
+                    f"CASE WHEN {num} <> TRUNC({num}) THEN "
+                    f"error('Cannot cast non-integer String to Integer: ' || CAST({expr} AS VARCHAR)) "
+                    f"ELSE CAST(TRUNC({num}) AS {duckdb_type}) END"
+                )
             return f"CAST(TRUNC(CAST({expr} AS DOUBLE)) AS {duckdb_type})"
 
         if target_type_str == "String" and source_lower == "boolean":
